@@ -12,7 +12,9 @@ RULE = ("generated: map kind x n in 8..96 x nb in 1..4 x interpolation order 1..
         "constructed inside each row's admissible interval.  Two oracles: total-sum conservation and operator column sums "
         "(unit impulses).  non-trivial: a charged row has a fractional offset with |frac| in [0.05,0.95] (kick maps); "
         "FPType != 0 and charge within 3 rows of the zero-energy bin (Fokker-Planck); identity: data not all zero; "
-        "distinct = distinct case hash")
+        "distinct = distinct case hash.  reach: generic kick with per-row offsets around +-n/2 (both sides, whole-cell and "
+        "fractional) and charge wherever source cell and image are both >= it+1 cells from the border (the property's own "
+        "hypothesis); rows with a complete weight table judged on their own; non-trivial = a charged row with |offset| > n/2-it-2")
 ASSUMPTIONS = ["float64 summation of <= 4*96*96 values is exact to 1e-12 relative"]
 TOL_SUM = 2e-6       # relative to sum |data_in| (kick maps)
 TOL_COL = 6e-7       # column sums, per interpolation point
@@ -302,6 +304,104 @@ def cases(draw):
     return c
 
 
+
+# ------------------------------------------------------------------ displacements near half the grid (the property's own hypothesis)
+def affected_rows(offs, n, it):
+    """rows whose weight table KickMap::updateSM truncates: the table is computed once per row, for the centre cell; a stencil
+    slot whose centre-relative source index n/2 + floor(o) + j - (it-1)/2 leaves [0, n) gets weight 0 for EVERY cell of the row"""
+    o = np.asarray(offs, np.float32)
+    p = np.float32(n // 2) + o
+    inside = (p >= 0) & (p < n)
+    jd = np.floor(np.where(inside, p, 0)).astype(np.int64)
+    lo = jd - (it - 1) // 2
+    hi = jd + (it - 1) - (it - 1) // 2
+    return (~inside) | (lo < 0) | (hi >= n)
+
+
+def run_reach(case):
+    """charge wherever BOTH the source cell s and its image s - o are at least it+1 cells from the border - exactly the
+    hypothesis of the property, without the extra clearance of ceil|o| that run_sum adds.  Rows are independent under a kick map,
+    so the rows the known finding cannot touch are judged on their own."""
+    n, nb, it, axis = case["n"], case["nb"], case["it"], case["axis"]
+    r = gen.rng(case["dseed"])
+    s, a, b = world(case, nb)
+    m = s.map_kick(a, b, it, axis)
+    offs = np.array(case["offsets"], np.float32)
+    full = np.tile(offs[:n], nb) if axis == 0 else np.resize(offs, nb * n)
+    s.map_set_offset(m, full)
+    offs = s.map_force(m, nb * n).reshape(nb, n)
+    raw = gen.moderate_f32(r, (nb, n, n), case["dkind"])
+    data = np.zeros((nb, n, n), np.float32)
+    idx = np.arange(n, dtype=np.float64)
+    for bb in range(nb):
+        for row in range(n):
+            o = float(offs[bb][row])
+            ok = (idx >= it + 1) & (idx <= n - 2 - it) & (idx - o >= it + 1) & (idx - o <= n - 2 - it)
+            if axis == 1:
+                data[bb, row, ok] = raw[bb, row, ok]
+            else:
+                data[bb, ok, row] = raw[bb, ok, row]
+    s.ps_data(a)[:] = data
+    s.map_apply(m)
+    out = s.ps_data(b).astype(np.float64)
+    d64 = data.astype(np.float64)
+    ax = 2 if axis == 1 else 1
+    rin, rout, rabs = d64.sum(axis=ax), out.sum(axis=ax), np.abs(d64).sum(axis=ax)      # [nb][row]
+    aff = affected_rows(offs, n, it)
+    charged = rabs > 0
+    near = np.abs(offs) > n / 2 - it - 2
+    cls = ["reach", "it%d" % it, "axis%d" % axis]
+    if (charged & aff).any():
+        cls.append("truncated_table_rows")
+    if (charged & ~aff & near).any():
+        cls.append("near_half_grid_untruncated")
+    nontriv = bool((charged & near).any())
+    un = charged & ~aff
+    sabs_un = rabs[un].sum()
+    rel_un = abs(rout[un].sum() - rin[un].sum()) / sabs_un if sabs_un > 0 else 0.0
+    # stale or foreign content must not appear in rows that carry no charge either
+    met = {"reach_sum_rel_untruncated": rel_un}
+    if rel_un > TOL_SUM:
+        k = np.argwhere(un & (np.abs(rout - rin) > TOL_SUM * np.maximum(rabs, 1e-30)))
+        bb, row = (int(k[0][0]), int(k[0][1])) if len(k) else (0, 0)
+        return Outcome(False, nontriv, cls, "kick (support clear of the border before and after): charge of the rows with a complete weight table "
+                       "changed by %.3g of sum|data| (n=%d nb=%d it=%d axis=%d); first row: bunch %d row %d offset %.6g in %.9g out %.9g" %
+                       (rel_un, n, nb, it, axis, bb, row, float(offs[bb][row]), rin[bb][row], rout[bb][row]), sig="c01:reach:interior:it%d" % it, metrics=met)
+    ta = charged & aff
+    sabs_a = rabs[ta].sum()
+    rel_a = abs(rout[ta].sum() - rin[ta].sum()) / sabs_a if sabs_a > 0 else 0.0
+    if rel_a > TOL_SUM:
+        k = np.argwhere(ta & (np.abs(rout - rin) > TOL_SUM * np.maximum(rabs, 1e-30)))
+        bb, row = int(k[0][0]), int(k[0][1])
+        return Outcome(False, nontriv, cls, "kick with a displacement within one stencil of half the grid: charge of bunch %d row %d (offset %.6g, n=%d it=%d "
+                       "axis=%d) changed from %.9g to %.9g although source and image are >= it+1 cells from the border" %
+                       (bb, row, float(offs[bb][row]), n, it, axis, rin[bb][row], rout[bb][row]), sig="c01:reach:halfgrid", metrics=met)
+    return Outcome(True, nontriv, cls, metrics=met)
+
+
+@st.composite
+def reach_cases(draw):
+    n = draw(st.integers(8, 72))
+    it = draw(st.sampled_from([1, 2, 3, 4]))
+    nb = draw(st.sampled_from([1, 1, 2, 3]))
+    h = n // 2
+
+    def off():
+        k = draw(st.integers(0, 9))
+        if k <= 3:          # within a few cells of +-n/2, either side of it
+            d = draw(st.integers(-4 * (it + 2), 4 * (it + 2))) / 4.0
+            return gen.f32((h if draw(st.booleans()) else -h) + d)
+        if k == 4:
+            return float(draw(st.sampled_from([-h, n - 1 - h, h, -h + 1, h - 1])))
+        if k <= 7:
+            return gen.f32(draw(st.floats(-h, h)))
+        return float(draw(st.integers(-h, h)))
+    mode = draw(st.sampled_from(["rows", "uniform", "uniform"]))
+    offs = [off() for _ in range(n * (nb if draw(st.booleans()) else 1))] if mode == "rows" else [off()] * n
+    return dict(n=n, nb=nb, it=it, axis=draw(st.sampled_from([0, 1])), offsets=offs, dseed=draw(gen.seeds()),
+                dkind=draw(st.sampled_from(["noise", "pos", "altsign"])), L=draw(st.sampled_from([4.0, 6.0])), sx=0.0, sy=0.0)
+
+
 # ------------------------------------------------------------------ coverage-guided (libFuzzer, fuzz/fuzz_maps.cpp, oracle "sum")
 from vlib import fuzzrun  # noqa: E402
 
@@ -316,4 +416,5 @@ def subs(tier):
     return [Sub("fuzzsum", st.just({}), run_fuzzsum, quick=1, thorough=1, needs=("fuzzmaps",),
                 enum=lambda t: fuzzrun.campaigns(t, 12000, 250000), max_wall={"quick": 400, "thorough": 3000}),
             Sub("sum", cases(), run_sum, quick=12000, thorough=120000),
-            Sub("colsum", cases(), run_col, quick=8000, thorough=80000)]
+            Sub("colsum", cases(), run_col, quick=8000, thorough=80000),
+            Sub("reach", reach_cases(), run_reach, quick=6000, thorough=60000)]
